@@ -89,6 +89,20 @@ def specs_for(tier, seed):
                     hooks.append(h)
                 add("three names three types", id_sets()["three names three types"], hooks=hooks, hooks_fail=not allow,
                     meta={"family": "challenge hook ends badly", "type": t, "exit": code, "signal": bool(extra), "allow_failure": allow})
+    # SEVERAL hooks of the challenge type (deploy, then reload): a failure of any of them that is not allowed to fail stops the call -
+    # what the last one returns does not make up for it
+    for t in ("http-01", "dns-01", "tls-alpn-01"):
+        for code, extra in (("3", []), ("0", ["--signal"])):
+            hooks = []
+            for h in standard_hooks():
+                h = dict(h)
+                if h["name"] == "chall-" + t:
+                    fails = dict(h, args=["--hook", h["name"], "--exit-seq", code] + extra + h["args"][4:])
+                    hooks.append(fails)
+                    h = dict(h, name="reload-" + t, args=["--hook", "reload-" + t] + h["args"][2:])
+                hooks.append(h)
+            add("three names three types", id_sets()["three names three types"], hooks=hooks, hooks_fail=True,
+                meta={"family": "first of two challenge hooks ends badly", "type": t, "exit": code, "signal": bool(extra)})
     # one script that serves a challenge type AND file events (deploy the proof, push new files to the front-end): it is still the
     # challenge hook of its type - and its clean counterpart likewise
     for t in ("http-01", "dns-01", "tls-alpn-01"):
